@@ -74,7 +74,34 @@ Theorem C09_clean_top : forall tn ohf d, f_keep fl = false ->
   nolink d -> (forall sub, lookup d magefilesDir = Some (Dir sub) -> nolink sub) ->
   fst (invoke_named w faults fl tn ohf d) = remove_stale_top d.
 Proof. exact (p_clean_top w faults fl repaired repaired2). Qed.
+(* -compile <out> with the output path inside the magefile directory ([invoke_compile]; for a
+   path elsewhere the directory theorems above apply as they are and [output_after] describes the
+   path).  Whatever fails - every fault assignment: if the run does not get to the `return 0`
+   after a successful build NOTHING that existed changes, the entry at the output path included;
+   if it does, exactly that entry is (re)written (a directory gets the binary inside) and mage exits 0 *)
+Theorem C09_compile_exactly_the_output : forall out bin inner d,
+  f_keep fl = false -> nolink d -> out <> mainfile ->
+  invoke_compile w faults fl out bin inner d =
+    if compiled fl (invoke_dir_full w faults fl d)
+    then (set out (install bin inner (lookup d out)) (remove_stale d), 0)
+    else (remove_stale d, snd (invoke_dir w faults fl d)).
+Proof. exact (p_compile_exact w faults fl repaired repaired2). Qed.
+
+Theorem C09_compile_failure_changes_nothing : forall out bin inner d,
+  f_keep fl = false -> lookup d mainfile = None -> out <> mainfile ->
+  compiled fl (invoke_dir_full w faults fl d) = false ->
+  fst (invoke_compile w faults fl out bin inner d) = d.
+Proof. exact (p_compile_failure w faults fl repaired repaired2). Qed.
+
+Theorem C09_compile_other_entries_untouched : forall out bin inner d n,
+  f_keep fl = false -> nolink d -> out <> mainfile -> n <> out -> n <> mainfile ->
+  lookup (fst (invoke_compile w faults fl out bin inner d)) n = lookup d n.
+Proof. exact (p_compile_others w faults fl repaired repaired2). Qed.
 End W.
+
+(* an output path outside the magefile directory: untouched unless the build succeeded *)
+Theorem C09_compile_output_elsewhere : forall fl o bin inner e, compiled fl o = false -> output_after fl o bin inner e = e.
+Proof. exact output_elsewhere. Qed.
 
 (* where the "files without the mage tag" listing pass does not exist (a directory called magefiles,
    the magefiles/ sub-directory: [f_mfdir]) a failure assigned to it changes nothing at all *)
@@ -155,6 +182,10 @@ Print Assumptions C09_crash_then_run.
 Print Assumptions C09_leftover_irrelevant_top.
 Print Assumptions C09_leftover_irrelevant_magefilesdir.
 Print Assumptions C09_clean_top.
+Print Assumptions C09_compile_exactly_the_output.
+Print Assumptions C09_compile_failure_changes_nothing.
+Print Assumptions C09_compile_other_entries_untouched.
+Print Assumptions C09_compile_output_elsewhere.
 Print Assumptions C09_no_nonmage_listing_in_magefiles_dir.
 Print Assumptions C09_directory_choice.
 Print Assumptions C09_clean_before_repair_refuted.
